@@ -102,10 +102,16 @@ func vMutate(c vCall) error {
 	return vOsErr()
 }
 
+// vStatFI, when set, is what every stat of the model file system reports
+var vStatFI os.FileInfo
+
 func vStatResult(op, name string) (os.FileInfo, error) {
 	vLogCall(vCall{Op: op, P1: name})
 	if err := vOsErr(); err != nil {
 		return nil, err
+	}
+	if vStatFI != nil {
+		return vStatFI, nil
 	}
 	if vAns(2) == 1 {
 		return &vFI{name: "d", size: 0, mode: os.ModeDir | 0o755, mtime: time.Unix(5, 0)}, nil
@@ -208,6 +214,9 @@ func (f *vMFile) Stat() (os.FileInfo, error) {
 	vLogCall(vCall{Op: "f.Stat", P1: f.name})
 	if err := vOsErr(); err != nil {
 		return nil, err
+	}
+	if vStatFI != nil {
+		return vStatFI, nil
 	}
 	m := os.FileMode(0o644)
 	if f.dir {
